@@ -58,6 +58,9 @@ type Outer struct {
 	Arr   [3]int8
 	Bytes []byte
 	MB    MyBytes
+	Oct   MyOctets
+	Dig   [4]byte
+	Raw   json.RawMessage
 	F     float64
 	U     uint64
 	I64   int64
